@@ -199,7 +199,8 @@ func (g *Gen) strs() []any {
 	return out
 }
 
-var mapKeys = []string{"k1", "k2", "application/json", "X-Hdr", "text/plain", "x-k", "x-rate-limit"}
+// the last three: names the specification treats specially where they name a header (a definition under them is still part of the document)
+var mapKeys = []string{"k1", "k2", "application/json", "X-Hdr", "text/plain", "x-k", "x-rate-limit", "Content-Type", "content-type", "Accept"}
 
 func (g *Gen) keys(min int) []string {
 	n := rapid.IntRange(min, 2).Draw(g.T, "nkeys")
